@@ -136,6 +136,47 @@ def _is_bv2int(e):
     return is_z3(e) and z3.is_app(e) and e.decl().kind() == z3.Z3_OP_BV2INT
 
 
+def bv_form(v):
+    """if the int value is syntactically an unsigned bit-vector value (BV2Int(x), a small numeral, or an
+    if-then-else of those) return that bit-vector, else None"""
+    if isinstance(v, bool):
+        return None
+    if isinstance(v, int):
+        return z3.BitVecVal(v, 8) if 0 <= v < 256 else None
+    if not sym.is_sym_int(v):
+        return None
+    s = z3.simplify(v)
+    if _is_bv2int(s):
+        return s.arg(0)
+    if z3.is_int_value(s):
+        n = s.as_long()
+        return z3.BitVecVal(n, 8) if 0 <= n < 256 else None
+    if z3.is_app(s) and s.decl().kind() == z3.Z3_OP_ITE:
+        a, b = bv_form(s.arg(1)), bv_form(s.arg(2))
+        if a is not None and b is not None:
+            w = max(a.size(), b.size())
+            a = z3.ZeroExt(w - a.size(), a) if a.size() < w else a
+            b = z3.ZeroExt(w - b.size(), b) if b.size() < w else b
+            return z3.If(s.arg(0), a, b)
+    return None
+
+
+def bv_compare(op, a, b):
+    """comparison of two ints that both have bit-vector forms, stated over bit-vectors"""
+    x, y = bv_form(a), bv_form(b)
+    if x is None or y is None:
+        return None
+    if isinstance(a, int) and not (0 <= a < (1 << y.size())):
+        return None
+    if isinstance(b, int) and not (0 <= b < (1 << x.size())):
+        return None
+    w = max(x.size(), y.size())
+    x = z3.ZeroExt(w - x.size(), x) if x.size() < w else x
+    y = z3.ZeroExt(w - y.size(), y) if y.size() < w else y
+    return {'Eq': lambda: x == y, 'NotEq': lambda: x != y, 'Lt': lambda: z3.ULT(x, y), 'LtE': lambda: z3.ULE(x, y),
+            'Gt': lambda: z3.UGT(x, y), 'GtE': lambda: z3.UGE(x, y)}[op]()
+
+
 def _as_bv(v, w):
     """int value -> BitVec(w) holding v mod 2**w."""
     if isinstance(v, int):
@@ -146,6 +187,9 @@ def _as_bv(v, w):
         return s.arg(0)
     if _is_bv2int(s) and s.arg(0).size() < w:
         return z3.ZeroExt(w - s.arg(0).size(), s.arg(0))
+    f = bv_form(s)
+    if f is not None and f.size() <= w:
+        return z3.ZeroExt(w - f.size(), f) if f.size() < w else f
     return z3.Int2BV(v, w)
 
 
@@ -156,6 +200,12 @@ def _known_width(ip, v):
     s = z3.simplify(zint(v))
     if _is_bv2int(s):
         return s.arg(0).size()
+    if z3.is_int_value(s):
+        return _known_width(ip, s.as_long())
+    if z3.is_app(s) and s.decl().kind() == z3.Z3_OP_ITE:
+        wa, wb = _known_width(ip, s.arg(1)), _known_width(ip, s.arg(2))
+        if wa is not None and wb is not None:
+            return max(wa, wb)
     for w in (8, 16, 32, 64):
         if ip.ctx.valid(z3.And(zint(v) >= 0, zint(v) < (1 << w))):
             return w
@@ -272,12 +322,16 @@ def to_float(ip, v):
 
 
 def bitop(ip, op, a, b):
-    wa, wb = _known_width(ip, a), _known_width(ip, b)
     if op == 'BitAnd' and (isinstance(a, int) or isinstance(b, int)):
         m, x = (a, b) if isinstance(a, int) else (b, a)
         if m >= 0:
             w = max(8, ((m.bit_length() + 7) // 8) * 8)
             return z3.BV2Int(_as_bv(x, w) & z3.BitVecVal(m, w))
+    wa, wb = _known_width(ip, a), _known_width(ip, b)
+    if op == 'BitAnd' and (wa is not None or wb is not None):
+        # x in [0, 2**w): x & y depends on y only modulo 2**w
+        w = wa if wb is None else (wb if wa is None else max(wa, wb))
+        return z3.BV2Int(_as_bv(a, w) & _as_bv(b, w))
     if wa is None or wb is None:
         raise Unsupported(f'{op} on ints of unknown width')
     w = max(wa, wb)
@@ -307,6 +361,9 @@ def eq(ip, a, b):
     if isint(a) and isint(b):
         if (isinstance(a, bool) or is_sym_bool(a)) and (isinstance(b, bool) or is_sym_bool(b)):
             return zbool(a) == zbool(b)
+        r = bv_compare('Eq', a, b)
+        if r is not None:
+            return r
         return zint(a) == zint(b)
     if is_bytes(a) and is_bytes(b):
         la, lb = blen(a), blen(b)
@@ -375,6 +432,9 @@ def compare(ip, op, a, b):
         except Exception as ex:  # noqa: BLE001
             raise PyRaise(type(ex), PyExcVal(type(ex), ex.args))
     if isint(a) and isint(b):
+        r = bv_compare(op, a, b)
+        if r is not None:
+            return r
         x, y = zint(a), zint(b)
         return {'Lt': x < y, 'LtE': x <= y, 'Gt': x > y, 'GtE': x >= y}[op]
     if isinstance(a, (float, SF, int)) and isinstance(b, (float, SF, int)) or \
@@ -468,7 +528,7 @@ def hdict_get(ip, d, k):
     v = z3.Select(d.maps[sp], ke)
     if not ip.ctx.branch(v != VAL.absent, 'key?'):
         raise_(KeyError, 'key')
-    return SV(v)
+    return SV(v, d.valtype)
 
 
 def hdict_set(ip, d, k, v):
@@ -497,7 +557,9 @@ def hdict_from_concrete(ip, d, name='d'):
 
 
 def hdict_copy(ip, d):
-    return HDict(d.name + "'", dict(d.maps))
+    c = HDict(d.name + "'", dict(d.maps))
+    c.valtype = d.valtype
+    return c
 
 
 def hdict_overlay(ip, base, top):
@@ -507,7 +569,9 @@ def hdict_overlay(ip, base, top):
         k = z3.Const('k!ov', srt)
         t, b = top.maps[sp], base.maps[sp]
         maps[sp] = z3.Lambda([k], z3.If(z3.Select(t, k) != VAL.absent, z3.Select(t, k), z3.Select(b, k)))
-    return HDict(base.name + '+' + top.name, maps)
+    r = HDict(base.name + '+' + top.name, maps)
+    r.valtype = top.valtype or base.valtype
+    return r
 
 
 # ------------------------------------------------------------------------------------ getitem
@@ -827,6 +891,10 @@ def list_find(ip, lst, x):
 
 
 def method_model(ip, o, name, args, kwargs):
+    for h in _METHOD_HOOKS:
+        r = h(ip, o, name, args, kwargs)
+        if r is not _MISSING:
+            return r
     if isinstance(o, ZList):
         if name == 'append':
             return zl_append(ip, o, args[0])
@@ -855,7 +923,7 @@ def method_model(ip, o, name, args, kwargs):
                 return d
             v = z3.Select(o.maps[sp], ke)
             if ip.ctx.branch(v != VAL.absent, 'key?'):
-                return SV(v)
+                return SV(v, o.valtype)
             return d
         if name == 'copy':
             return hdict_copy(ip, o)
@@ -1071,11 +1139,11 @@ def hash_digest(ip, h, size=None):
     e = bexpr(d)
     if h.algo == 'sha256':
         r = sym.sha256_f(e)
-        ip.ctx.define(z3.Length(r) == 32)
+        ip.ctx.define(z3.Length(r) == 32, lenfact=True)
         return sym_bytes(r, 32)
     if h.algo == 'sha512':
         r = sym.sha512_f(e)
-        ip.ctx.define(z3.Length(r) == 64)
+        ip.ctx.define(z3.Length(r) == 64, lenfact=True)
         return sym_bytes(r, 64)
     if h.algo == 'shake_256':
         n = zint(size)
@@ -1083,7 +1151,7 @@ def hash_digest(ip, h, size=None):
             raise_(ValueError, 'negative digest length')
         ip.models.alloc(ip, n, 'shake_256.digest')
         r = sym.shake256_f(e, n)
-        ip.ctx.define(z3.Implies(n >= 0, z3.Length(r) == n))
+        ip.ctx.define(z3.Implies(n >= 0, z3.Length(r) == n), lenfact=True)
         cn = sym.concrete_int(n)
         return sym_bytes(r, cn if cn is not None else n)
     raise Unsupported(f'hash {h.algo}')
@@ -1099,6 +1167,9 @@ def alloc(ip, n, what):
 
 # ----------------------------------------------------------------------------------- construct
 def construct(ip, cls, args, kwargs):
+    cm = _CLASS_MODELS.get(cls)
+    if cm is not None and not (all(is_concrete(a) for a in args) and all(is_concrete(v) for v in kwargs.values())):
+        return cm(ip, *args, **kwargs)
     if isinstance(cls, type) and issubclass(cls, BaseException):
         return PyExcVal(cls, tuple(args))
     if cls is collections.deque:
@@ -1252,6 +1323,10 @@ def m_bytes(ip, *args):
         return sym_bytes(sym.utf8enc(v.e))
     if isinstance(v, HObj) and len(args) == 1:
         return ip.call_method(v, '__bytes__', [], {})
+    if getattr(v, '_symbolic', False) and len(args) == 1:
+        r = method_model(ip, v, '__bytes__', [], {})
+        if r is not _MISSING:
+            return r
     if isinstance(v, (list, tuple)) and len(args) == 1:
         out = []
         for x in v:
@@ -1397,7 +1472,7 @@ def m_token_bytes(ip, n=None):
     alloc(ip, n, 'token_bytes')
     k = ip.ctx.count('token')
     r = sym.token_f(z3.IntVal(k), zint(n))
-    ip.ctx.define(z3.Implies(zint(n) >= 0, z3.Length(r) == zint(n)))
+    ip.ctx.define(z3.Implies(zint(n) >= 0, z3.Length(r) == zint(n)), lenfact=True)
     cn = sym.concrete_int(n)
     return sym_bytes(r, cn if cn is not None else zint(n))
 
@@ -1422,7 +1497,7 @@ def m_struct_pack(ip, fmt, *vals):
         if not ip.ctx.branch(sym.f_packok(e), 'pack fits'):
             raise_(OverflowError, 'float too large to pack with f format')
         r = sym.f_pack(e)
-        ip.ctx.define(z3.Length(r) == 4)
+        ip.ctx.define(z3.Length(r) == 4, lenfact=True)
         return sym_bytes(r, 4)
     raise Unsupported(f'struct.pack {fmt!r} on symbolic data')
 
@@ -1563,6 +1638,16 @@ def _table():
 
 
 _EXTRA_MODELS = {}     # filled by crypto.py : callable -> model
+_CLASS_MODELS = {}     # class -> constructor model (used when an argument is symbolic)
+_METHOD_HOOKS = []     # f(ip, obj, name, args, kwargs) -> result | _MISSING
+
+
+def register_class(cls, model):
+    _CLASS_MODELS[cls] = model
+
+
+def register_method_hook(h):
+    _METHOD_HOOKS.append(h)
 
 
 def register_model(fn, model):
